@@ -105,14 +105,26 @@ fn run(input: RunInput) -> ScenFuture {
             // (one attempt in six sends no server name at all)
             let no_sni = r.gen_range(0..6) == 0;
             let sni = if no_sni { "<none>".to_string() } else { pool[r.gen_range(0..pool.len())].clone() };
-            let cert_name = pool[r.gen_range(0..pool.len())].clone();
+            // the certificate: for one name, for two names (valid for each of them), for no name at
+            // all, or only for something that is not a DNS name (valid for no network name)
+            let (cert_names, non_dns): (Vec<String>, Option<u8>) = match r.gen_range(0..10) {
+                0 => (vec![], None),
+                1 => (vec![], Some(r.gen_range(0..2))),
+                2 | 3 => (vec![pool[r.gen_range(0..pool.len())].clone(), pool[r.gen_range(0..pool.len())].clone()], r.gen_bool(0.3).then(|| r.gen_range(0..2))),
+                _ => (vec![pool[r.gen_range(0..pool.len())].clone()], None),
+            };
+            let cert_name = format!("{cert_names:?}{}", match non_dns { Some(0) => "+ip", Some(_) => "+uri", None => "" });
+            let cert_ok = cert_names.iter().any(|n| accepts(l, n));
+            if cert_names.len() != 1 || non_dns.is_some() {
+                w.probe("adversarial-certificate-with-unusual-name-set");
+            }
             let adv = adv_endpoint(&w, AdvSpec {
-                idx: 9, port: 7200 + k as u16, chain: vec![gen_cert(&k_adv, &cert_name)], sign_key: k_adv, present_client_cert: true,
+                idx: 9, port: 7200 + k as u16, chain: vec![gen_cert_shape(&k_adv, &cert_names, non_dns)], sign_key: k_adv, present_client_cert: true,
                 idle_ms: 6_000, keep_alive_ms: None, max_bidi: 10,
             });
             let res = if no_sni { adv.dial_no_sni(nodes[l].addr, 1_200).await } else { adv.dial(nodes[l].addr, &sni, 1_200).await };
-            let model = !no_sni && accepts(l, &sni) && accepts(l, &cert_name);
-            let key = format!("sni_accepted={} cert_accepted={}", accepts(l, &sni), accepts(l, &cert_name));
+            let model = !no_sni && accepts(l, &sni) && cert_ok;
+            let key = format!("sni_accepted={} cert_accepted={}{}", accepts(l, &sni), cert_ok, if cert_names.is_empty() { " cert_without_dns_name" } else { "" });
             w.event(format!("adv {key}:{}", if res.is_ok() { "admitted" } else { "refused" }));
             samples.push(json!({"listener": names[l], "sni": sni, "cert_name": cert_name, "model_admits": model, "admitted": res.is_ok()}));
             if res.is_ok() && !model {
@@ -159,9 +171,15 @@ fn run(input: RunInput) -> ScenFuture {
         // its primary name
         for d in 0..2usize {
             let pool: Vec<String> = vec![names[d].0.clone(), names[d].1.clone().unwrap_or_else(|| "zz-none".into()), names[1 - d].0.clone(), pick_name(&mut r)];
-            let cert_name = pool[r.gen_range(0..pool.len())].clone();
+            let (cert_names, non_dns): (Vec<String>, Option<u8>) = match r.gen_range(0..10) {
+                0 => (vec![], None),
+                1 => (vec![], Some(r.gen_range(0..2))),
+                2 | 3 => (vec![pool[r.gen_range(0..pool.len())].clone(), pool[r.gen_range(0..pool.len())].clone()], None),
+                _ => (vec![pool[r.gen_range(0..pool.len())].clone()], None),
+            };
+            let cert_name = format!("{cert_names:?}{}", match non_dns { Some(0) => "+ip", Some(_) => "+uri", None => "" });
             let l2 = adv_endpoint(&w, AdvSpec {
-                idx: 8, port: 7300 + d as u16, chain: vec![gen_cert(&k_adv, &cert_name)], sign_key: k_adv, present_client_cert: true,
+                idx: 8, port: 7300 + d as u16, chain: vec![gen_cert_shape(&k_adv, &cert_names, non_dns)], sign_key: k_adv, present_client_cert: true,
                 idle_ms: 6_000, keep_alive_ms: None, max_bidi: 10,
             });
             let l2 = std::sync::Arc::new(l2);
@@ -176,8 +194,8 @@ fn run(input: RunInput) -> ScenFuture {
             };
             let res = tokio::time::timeout(std::time::Duration::from_secs(5), nodes[d].net.connect(l2.addr)).await;
             let connected = matches!(res, Ok(Ok(_)));
-            let model = cert_name == names[d].0;
-            let key = format!("dialer=({},{:?}) cert_is_primary={} cert_is_alternate={}", names[d].0, names[d].1, model, names[d].1.as_deref() == Some(cert_name.as_str()));
+            let model = cert_names.iter().any(|n| *n == names[d].0);
+            let key = format!("dialer=({},{:?}) cert_is_primary={} cert_is_alternate={}", names[d].0, names[d].1, model, cert_names.iter().any(|n| names[d].1.as_deref() == Some(n.as_str())));
             w.event(format!("adv-listener {}:{}", if model { "primary" } else { "other" }, if connected { "ok" } else { "err" }));
             if connected && !model {
                 w.violate("dialer-accepted-certificate-for-a-name-it-did-not-dial", key.clone(), format!("dialer with primary {:?} (alternate {:?}) connected to a listener presenting a certificate for {cert_name:?}", names[d].0, names[d].1));
